@@ -185,7 +185,7 @@ def declare3(S: Spec):
     USAGE = "self.consumed_ram_gb == Sum(self.active_containers, 'Container._current_memory')"
 
     NEG = "self.avail_cpu_pool >= 0 and implies(not self.allow_memory_overcommit, self.avail_ram_pool >= 0)"
-    S.fn(f"{MR}:ResourcePool.run_one_tick", owners=["C03", "C04", "C09", "C10"],
+    S.fn(f"{MR}:ResourcePool.run_one_tick", owners=["C02", "C03", "C04", "C09", "C10"],
          params={"suspensions": List(Ref("Suspend")), "assignments": List(Ref("Assignment"))},
          returns=List(Ref("ExecutionResult")),
          requires=["suspensions is not None and assignments is not None", "PoolInv(self)", "GI1()",
